@@ -192,8 +192,21 @@ theorem sameAlignment_suspend (r : Rec) : SameAlignment r (suspend r) := by simp
 theorem sameAlignment_flag (a b : Bool) (r : Rec) : SameAlignment r (flag a b r) := by
   cases a <;> cases b <;> simp [SameAlignment, flag]
 
-def changeT (kept : List IRec) : Bool := decide (1 < setSize (kept.flatMap (fun x => x.1.isoforms)))
-def changeG (kept : List IRec) : Bool := decide (1 < setSize (kept.flatMap (fun x => x.1.genes)))
+/-- `change_transcript_assignment_type` / `change_gene_assignment_type` of `filter_assignments`
+    (`several_kept and len(all_isoforms) > 1`) -/
+def changeT (kept : List IRec) : Bool :=
+  decide (1 < kept.length) && decide (1 < setSize (kept.flatMap (fun x => x.1.isoforms)))
+def changeG (kept : List IRec) : Bool :=
+  decide (1 < kept.length) && decide (1 < setSize (kept.flatMap (fun x => x.1.genes)))
+
+theorem changeT_of_length_le_one {kept : List IRec} (h : kept.length ≤ 1) : changeT kept = false := by
+  have : ¬ 1 < kept.length := by omega
+  simp [changeT, this]
+theorem changeG_of_length_le_one {kept : List IRec} (h : kept.length ≤ 1) : changeG kept = false := by
+  have : ¬ 1 < kept.length := by omega
+  simp [changeG, this]
+
+theorem flag_false_false (r : Rec) : flag false false r = r := rfl
 
 theorem length_applyKeep (l : List Rec) (kept : List IRec) : (applyKeep l kept).length = l.length := by
   simp [applyKeep]
